@@ -233,8 +233,9 @@ func Qualifier(name, query string) (Filter, error) {
 	if name == "" {
 		return func(f Feature) bool {
 			for _, vv := range f.Props {
-				for _, v := range vv {
-					if re.MatchString(v) {
+				for i, v := range vv {
+					// vv[0] is the qualifier name: only the values are tested.
+					if i > 0 && re.MatchString(v) {
 						return true
 					}
 				}
